@@ -31,6 +31,13 @@ def quoted_after(marker_re):
     return para if len(para) > 80 else None
 
 
+def _clean(x):
+    if not x:
+        return x
+    x = re.split(r'["”]\s*`?level_(?:note|claimed\.text)`?\s*(?:\([^)]*\))?\s*:', x)[0]
+    return x.strip().strip('"“”').strip()
+
+
 text = quoted_after(r'level_claimed\.text`?\*{0,2}[^\n"“]*?:?\s*')
 note = quoted_after(r'level_note`?\*{0,2}[^\n"“]*?:?\s*')
 # DESIGN replacement
@@ -65,6 +72,7 @@ else:
 
 mpath = os.path.join(ROOT, 'harness', 'manifest_src.json')
 src = json.load(open(mpath))
+text, note = _clean(text), _clean(note)
 if text:
     src['checks'][pid]['text'] = text
     print(f'{pid}: level_claimed.text updated ({len(text)} chars)')
